@@ -56,7 +56,8 @@ Notes  == << P0("weekly"), P0("déjeuner"), P("pour 😀", 1), P0("7 apples"), P
 Codes  == << P0("123"), P0("INV-7"), P0("é1") >>
 Tags   == << [n |-> "type", v |-> P0("food")], [n |-> "project", v |-> P0("x y")], [n |-> "date", v |-> P0("2024-01-02")],
              [n |-> "memo", v |-> P0("été")], [n |-> "flag", v |-> P0("")], [n |-> "who", v |-> P("me😀", 1)],
-             [n |-> "time", v |-> P0("12:30")] >>       \* a value may contain colons: the name ends at the FIRST colon
+             [n |-> "time", v |-> P0("12:30")],          \* a value may contain colons: the name ends at the FIRST colon
+             [n |-> "place", v |-> P0("food")] >>        \* the same value under two names (type:food, place:food)
 FreeTexts == << P0("note"), P0(" spaced  text "), P("😀", 1), P0("paid in cash") >>
 
 (* ---- numbers ------------------------------------------------------------------------------- *)
